@@ -192,6 +192,9 @@ def run(ctx):
     ctx.rule("R05.i", "in every @contextmanager, each write to object state (attribute/subscript store) made after the yield on the normal way out is also made on the way out of a failing body", floor=5)
     ctx.rule("R05.g", "a self-resetting Event is reset even when a watcher raises during the assignment: in Event.__set__ the reset is passed on the exceptional exit of super().__set__", floor=1)
     ctx.rule("R05.h", "a failing flush leaves no events behind: every exceptional exit of the flush passes a reset of both queues", floor=1)
+    ctx.rule("R05.r", "rx cache model (shared with R09.i): an exception escaping an expression's evaluation inside a watcher leaves the node dirty with the error stored; every later "
+                      "invalidation (a valid assignment to an operand) clears that error, so the next evaluation recomputes instead of re-raising the stale exception -- the object dispatches "
+                      "later assignments as a fresh one would", floor=1)
     ctx.rule("R05.n", "namespace model (shared with R13.h), with class-level sets that are REFUSED after a watcher read the namespaces: after a failed class-level assignment every `.param` "
                       "lookup still names the Parameter that governs attribute access -- edit_constant, update and trigger switch flags and Event modes through that lookup, so a stale one "
                       "makes them act on the wrong object from then on", floor=1)
@@ -339,6 +342,8 @@ def run(ctx):
     ctor_model.report(ctx, "C05", "R05.k")
     from checks import namespace_model
     namespace_model.report(ctx, "R05.n")
+    from checks import rx_model
+    rx_model.report(ctx, "R05.r")
     from checks import update_model
     update_model.report(ctx, "C05", "R05.m")
     from checks import trigger_model
